@@ -6,7 +6,7 @@ PROP = {
     "subchecks": [
         {"target": "c07_buffer_rc", "sub": "buffer",
          "quick": {"cases": 12000, "max_size": 120, "workers": 6},
-         "thorough": {"cases": 300000, "max_size": 300, "workers": 12}},
+         "thorough": {"cases": 120000, "max_size": 200, "workers": 12}},
         {"target": "c07_buffer_fuzz", "sub": "buffer",
          "quick": {"runs": 100000, "max_len": 600, "workers": 4},
          "thorough": {"runs": 300000, "max_len": 1500, "workers": 6}},
